@@ -160,6 +160,11 @@ func init() {
 			s.Transform, s.Entropy = "BWT", "ANS0"
 			add(s)
 		}
+		for _, st := range stallScenarios(c) {
+			if st.Kind == "dec" {
+				add(st)
+			}
+		}
 		results := e1RunAll(c, specs, 16)
 		e1Summary(c, results)
 
